@@ -24,10 +24,13 @@ def workload(prop, tier, seed, stream, k):
     cid = "%s-%s-%d" % (prop, stream, k)
     files = {}
     if stream == "solve":
-        c, m, cfg = sf.gen_case("C01", tier, seed + 1000, rnd.choice(["small-rand", "degenerate", "thin", "planted-inf", "tiny", "illcond"]), k)
+        c, m, cfg = sf.gen_case("C01", tier, seed + 1000, rnd.choice(["small-rand", "degenerate", "thin", "planted-inf", "tiny", "illcond", "knife"]), k)
         L = [ln if not ln.startswith("set_param p0 4 ") and not ln.startswith("set_param p1 4 ") else ln[:15] + str(rnd.choice([0, 1, 2, 3])) for ln in c.script]
     elif stream == "hist":
-        c = hist.gen_c05(tier, seed + 1000, ("rand", "warm", "basisload", "pattern")[k % 4], k)
+        if k % 6 == 5:
+            c = hist.gen_c06(tier, seed + 1000, "matgrow", k)
+        else:
+            c = hist.gen_c05(tier, seed + 1000, ("rand", "warm", "basisload", "pattern")[k % 4], k)
         L = c.script
         if rnd.random() < 0.5:
             L = [L[0]] + ["set_param p0 4 %d" % rnd.choice([1, 2, 3])] + L[1:] if L[0].startswith(("create", "load")) else L
